@@ -4,6 +4,8 @@
 //! Stand-ins: `flume` (single-threaded FIFO).  In native replay a real thread plays the actor
 //! over the real `flume`.
 use super::*;
+#[allow(unused_imports)]
+use crate::verif_env::k as kani;
 
 static mut SEQS: crate::verif_env::Ghost<[i64; 3]> = crate::verif_env::ghost(5, [0; 3]);
 static mut VALS: crate::verif_env::Ghost<[u8; 3]> = crate::verif_env::ghost(6, [0; 3]);
